@@ -18,23 +18,25 @@ Qed.
 Theorem C07_reports_iff_built_cycle : forall ds, reports_cycle ds = true <-> cyclic (built_edges ds).
 Proof. exact reports_cycle_iff. Qed.
 
-(* function blocks, programs and structures (containment edges only): reported exactly when some
-   declaration transitively contains itself *)
+(* ... and that graph is the dependency relation turned round, so: reported exactly when some declaration depends on itself
+   -- a type that is (transitively) an alias of itself, a structure or unit that (transitively) contains itself, or any
+   mixture of the two *)
+Theorem C07_exact : forall ds, reports_cycle ds = true <-> cyclic (dep_edges ds).
+Proof. exact reports_iff_depends. Qed.
+
 Theorem C07_exact_containers : forall ds, forallb is_container ds = true ->
   (reports_cycle ds = true <-> cyclic (dep_edges ds)).
 Proof. exact reports_iff_depends_containers. Qed.
 
-(* type aliases only: reported exactly when some type transitively is an alias of itself *)
 Theorem C07_exact_aliases : forall ds, forallb is_alias ds = true ->
   (reports_cycle ds = true <-> cyclic (dep_edges ds)).
 Proof. exact reports_iff_depends_aliases. Qed.
 
-(* the full statement (any mixture of aliases and containers) is false of the code: alias edges and
-   containment edges are stored with opposite orientation, so a cycle that uses both is not seen *)
-Theorem C07_mixed_orientation_refuted :
+(* the cycle through an alias and a structure element, unreported before the repair of the edge orientation, is reported *)
+Theorem C07_mixed_cycle_reported :
   let ds := [DStruct 1 [2]; DAlias 2 1] in
-  cyclic (dep_edges ds) /\ reports_cycle ds = false.
-Proof. exact mixed_orientation_refuted. Qed.
+  cyclic (dep_edges ds) /\ reports_cycle ds = true.
+Proof. exact mixed_cycle_reported. Qed.
 
 (* tie to xform_toposort_declarations.rs: which visitor adds which edge and in which direction *)
 Theorem C07_gen_edges :
@@ -43,9 +45,9 @@ Theorem C07_gen_edges :
    ("visit_enumeration_declaration", "depends_on", "this");
    ("visit_subrange_declaration", "depends_on", "this");
    ("visit_array_declaration", "depends_on", "this");
-   ("visit_function_block_initial_value_assignment", "from", "to");
-   ("visit_initial_value_assignment_kind:FunctionBlock", "from", "to");
-   ("visit_initial_value_assignment_kind:LateResolvedType", "from", "to")]%string.
+   ("visit_function_block_initial_value_assignment", "to", "from");
+   ("visit_initial_value_assignment_kind:FunctionBlock", "to", "from");
+   ("visit_initial_value_assignment_kind:LateResolvedType", "to", "from")]%string.
 Proof. reflexivity. Qed.
 
 (* non-vacuity: a chain of three function blocks is accepted, closing it is reported *)
